@@ -28,6 +28,10 @@ var M = &run.Monitor{
 		"the toolchain's encoding/json (go1.26.0) is the specification; both implementations run in the same process on the same bytes and the same Go types",
 		"domain: types expressible in both packages (map keys: string, integer and text-method kinds); cyclic unmarshal targets are outside the domain",
 		"not compared (by the property text): error messages, the target after a semantic error, the order among equal object names, Decoder More/InputOffset answers while an error is pending",
+		"domain: a type containing a map whose key type classic cannot decode at all (pointer key types such as *PTM: not a string/integer kind and **PTM has no UnmarshalText) takes part in marshal rounds only",
+		"Decoder scripts: two failing calls fail together whatever their errors are; only at the end of a valid complete stream must both errors be io.EOF (io.EOF on one side only is reported)",
+		"MarshalIndent/SetIndent with indentation that is not JSON whitespace is compared only when the plain Marshal outputs of the value are byte-equal and free of duplicate names (the indented text cannot be parsed to excuse member order or to classify)",
+		"every report carries cause=<root cause> computed from structural facts of the reduced case (cmd/c09/cause.go); recorded divergences are matched in known_findings.json by sub + cause, anything else is cause=unclassified",
 	},
 	Floors: func(c map[string]int64, tier string) []string {
 		var u []string
@@ -89,6 +93,9 @@ func selfTest() error {
 	}
 	if n < 1000 {
 		return fmt.Errorf("self-test compared only %d value pairs", n)
+	}
+	if err := selfTestCauses(); err != nil {
+		return err
 	}
 	got := string(canonDup([]byte(`{"k":2,"k":1,"a":{"x":[2],"x":[1]}}`)))
 	if got != `{"k":1,"k":2,"a":{"x":[1],"x":[2]}}` {
@@ -160,7 +167,7 @@ func execCycle(w *run.W, a *cycleArgs) {
 	var out1, out2 []byte
 	o1 := guard(func() (err error) { out1, err = stdjson.Marshal(v); return })
 	o2 := guard(func() (err error) { out2, err = v1.Marshal(v); return })
-	compareMarshal(w, "Marshal-cyclic", reflect.TypeOf(v), fmt.Sprintf("cyclic value kind %d", a.Kind), out1, out2, o1, o2)
+	compareMarshal(w, "Marshal-cyclic", reflect.TypeOf(v), fmt.Sprintf("cyclic value kind %d", a.Kind), out1, out2, o1, o2, false)
 	w.Count("cycles", 1)
 }
 
